@@ -56,6 +56,7 @@ class Driver:
         self.nwalks = 0
         self.events_cls = None
         gc.collect()
+        gc.freeze()     # the state graph held by this process is millions of long-lived objects: keep them out of every later collection
         self.baseline = self._registry_size()
         self.last_obs = None
 
@@ -383,47 +384,67 @@ class Driver:
 
 # ---------------------------------------------------------------------- sampled deep walks from TLC's simulator
 def simulate_walks(module, cfg_text, workdir, num, depth, seed, timeout=600):
-    """Random behaviours of the spec generated by TLC -simulate with the edge-printing ACTION_CONSTRAINT; returns a Graph
-    holding the visited edges and the walks (lists of edge indices) in the order TLC took them."""
+    """Random behaviours of the spec generated by `tlc -simulate`.  The cfg's INVARIANT SimEmit prints
+    [lvl, from, act, to, obs] for every candidate successor TLC looks at (all successors of the action it picked); the
+    candidate whose `to` is the `from` of the next level is the one the behaviour took.  Returns a Graph holding the
+    edges taken and the walks (lists of edge indices)."""
     r = tlc.run(module, cfg_text, workdir, workers=1, timeout=timeout, keep_stdout=False,
                 simulate="num=%d" % num, extra=["-depth", str(depth), "-seed", str(seed)])
     g = graph.Graph()
     g.tlc = r
     walks = []
-    cur = None
-    prev_to = None
-    init_keys = set()
     index = {}
+    levels = []          # levels[i] = candidate lines of step i+1 of the behaviour being read
+
+    def flush():
+        if not levels:
+            return
+        walk = []
+        for i, cands in enumerate(levels):
+            pick = cands[0]
+            if i + 1 < len(levels):
+                nxt = graph.key(levels[i + 1][0]["from"])
+                for c in cands:
+                    if graph.key(c["to"]) == nxt:
+                        pick = c
+                        break
+                else:
+                    break            # no candidate leads to the next level: cut the walk here (never observed)
+            act = dict(pick["act"], obs=pick["obs"])
+            fk, tk = graph.key(pick["from"]), graph.key(pick["to"])
+            ek = (fk, graph.key(act), tk)
+            ei = index.get(ek)
+            if ei is None:
+                ei = index[ek] = len(g.edges)
+                g.add_edge(pick["from"], act, pick["to"])
+            walk.append(ei)
+        if walk:
+            walks.append(walk)
+        del levels[:]
+
     for o in r.json:
-        if "init" in o:
-            k = graph.key(o["init"])
-            g.states.setdefault(k, o["init"])
+        if "lvl" not in o:
+            continue
+        if o["lvl"] == 1:
+            flush()
+            k = graph.key(o["to"])
+            g.states.setdefault(k, o["to"])
             g.out.setdefault(k, [])
             if k not in g.inits:
                 g.inits.append(k)
-            init_keys.add(k)
             continue
-        if "from" not in o:
-            continue
-        act = dict(o["act"], obs=o["obs"]) if "obs" in o else o["act"]
-        fk, tk = graph.key(o["from"]), graph.key(o["to"])
-        ek = (fk, graph.key(act), tk)
-        ei = index.get(ek)
-        if ei is None:
-            ei = len(g.edges)
-            index[ek] = ei
-            g.add_edge(o["from"], act, o["to"])
-        if cur is None or fk != prev_to or (fk in init_keys and len(cur) >= depth - 1):
-            if fk not in init_keys:
-                cur = None          # a fragment that does not start at Init cannot be replayed
-                prev_to = None
-                continue
-            cur = []
-            walks.append(cur)
-        cur.append(ei)
-        prev_to = tk
+        i = o["lvl"] - 2
+        if i < len(levels) - 1:      # the level went back: TLC began the next behaviour (the initial state is printed only once)
+            flush()
+        if i == len(levels):
+            levels.append([o])
+        elif i == len(levels) - 1:
+            levels[i].append(o)
+        else:                        # a gap (never observed): drop the fragment
+            del levels[:]
+    flush()
     r.json = []
-    return g, [w for w in walks if w]
+    return g, walks
 
 
 # ====================================================================== schedules: deterministic baton scheduler
@@ -436,7 +457,7 @@ class _Abort(BaseException):
 
 
 class _Th:
-    __slots__ = ("t", "sem", "pc", "want", "thread", "res", "abort")
+    __slots__ = ("t", "sem", "pc", "want", "thread", "res", "abort", "lastmark")
 
     def __init__(self, t):
         import threading
@@ -447,6 +468,7 @@ class _Th:
         self.thread = None
         self.res = ""
         self.abort = False
+        self.lastmark = None
 
 
 class ShimLock:
@@ -583,6 +605,11 @@ class SchedDriver:
             c = frame.f_code
             pc = self.marks.get((c.co_filename, c.co_name, frame.f_lineno))
             if pc is not None:
+                th = self.tls.th
+                # a `with` line is reported again when the block is left (its __exit__ call): one yield per frame and line
+                if th.lastmark is not None and th.lastmark[0] is frame and th.lastmark[1] == frame.f_lineno:
+                    return self._local_trace
+                th.lastmark = (frame, frame.f_lineno)
                 self.park(pc)
         return self._local_trace
 
@@ -602,6 +629,7 @@ class SchedDriver:
                 th.res = type(e).__name__
         finally:
             sys.settrace(None)
+            th.lastmark = None
             th.pc = "done"
             self.ctl_sem.release()
 
